@@ -136,3 +136,12 @@ package main
 //@   at assign .Locator#1: assert $v == string(p.SizedDigest)[0:32]
 //@   at assign .MountUUID#1: assert $v == p.To.KeepMount.UUID
 //@   calls KeepService.URLBase#1: requires $recv == p.From
+
+// countCollections: the expected number of collections is the API server's
+// exact count for the given filter with no items requested, and a failed
+// request is reported.
+//@ func countCollections property C06
+//@   ghost rerr error = nil
+//@   calls Client.RequestAndDecode#1: requires $1 == "GET" && $2 == "arvados/v1/collections" && params.Count == "exact" && *params.Limit == 0
+//@   calls Client.RequestAndDecode#1: set rerr = $r
+//@   ensures result1 == rerr
